@@ -4,7 +4,7 @@ import logging
 from collections.abc import Iterable
 
 from .cg import is_not_self_intervened, make_counterfactual_graph
-from .id_star import id_star
+from .id_star import id_star, remove_event_tautologies, violates_axiom_of_effectiveness
 from .utils import Unidentifiable
 from ..conditional_independencies import are_d_separated
 from ...dsl import Event, Expression, Variable, Zero
@@ -87,6 +87,15 @@ def idc_star(
             "[%d]: line 1 IDC* algorithm: ID* algorithm is not identifiable, but is also not inconsistent.",
             _number_recursions,
         )
+
+    # A tautological event (X_x = x) has probability one and is not a node of the counterfactual
+    # graph, and an outcome that violates the axiom of effectiveness (X_x = x') is impossible
+    conditions = remove_event_tautologies(conditions)
+    if violates_axiom_of_effectiveness(outcomes):
+        return Zero()
+    outcomes = remove_event_tautologies(outcomes)
+    if not conditions:
+        return id_star(graph, outcomes, _number_recursions=_number_recursions + 1)
 
     _events = outcomes | conditions
     logger.debug(
